@@ -24,6 +24,10 @@ def run(ck):
     r4_vk_identity(ck, w)
     r5_trailing_bytes(ck, w)
     r6_pi_count(ck, w)
+    from ..engines import fsbind
+    ck.rule('C03.R7', 'Fiat–Shamir statement binding: in the prover (compute_trace) and the verifier (parse_trace) the verifying-key identity, the committed '
+                      'instances, the instance lengths and values are absorbed before the first challenge is squeezed')
+    fsbind.check(ck, w, 'C03.R7', ['midnight_proofs::plonk::prover::compute_trace', 'midnight_proofs::plonk::verifier::parse_trace'], 4)
 
 
 # ---------------------------------------------------------------- R1
